@@ -96,6 +96,9 @@ func (v *formatter_) GetMaximum() int {
 // Public
 
 func (v *formatter_) FormatValue(value any) (source string) {
+	// Start afresh: an earlier call that panicked must not leak into this one.
+	v.result_.Reset()
+	v.depth_ = 0
 	v.formatValue(value)
 	v.appendNewline()
 	source = v.getResult()
